@@ -15,6 +15,7 @@ import Driver.IoStackIO
 import KmipModel.DecodeStack
 import KmipModel.DecodeCost
 import KmipModel.Wire
+import KmipModel.WireDV
 import KmipModel.Io
 /-
   kvdriver: one request per input line, one reply per output line.  Runs the executable model and the
@@ -184,6 +185,24 @@ def step (line : String) : String :=
     match parseFV rest with
     | some (.dyn d, []) => showOutcomeBytes (encodeSD KmipGen.sd_Request (Wire.mkRequest wireZExt (maj.toNat!, min.toNat!) op.toNat! d))
     | _ => "bad-op"
+  -- wiredv CLOCK MAJ.MIN,MAJ.MIN,… REQHEX: the bytes the Server writes when its only handler is the built-in Discover Versions
+  -- one and its SupportedVersions are the given list (`-` = empty)
+  | ["wiredv", clock, sup, hex] =>
+    let parseV (t : String) : Option (Nat × Nat) :=
+      match t.splitOn "." with
+      | [a, b] => match a.toNat?, b.toNat? with
+        | some x, some y => some (x, y)
+        | _, _ => none
+      | _ => none
+    match fromHex hex, (if sup == "-" then some [] else (sup.splitOn ",").mapM parseV) with
+    | some bs, some sv =>
+      match decodeSD KmipGen.sd_Request bs with
+      | .ok (rv, _, _) =>
+        match Wire.handleBatch wireZNonce wireZExt clock.toNat! true (dvHandler sv) rv with
+        | none => "none"
+        | some resp => showOutcomeBytes (encodeSD KmipGen.sd_Response resp)
+      | _ => "undecodable"
+    | _, _ => "bad-op"
   | "wireresp" :: clock :: authOk :: hex :: rest =>
     match fromHex hex, ((splitBars rest).filter (fun g => !g.isEmpty)).mapM parseHRes with
     | some bs, some res => wireResp clock.toNat! (authOk == "1") bs res
